@@ -37,7 +37,7 @@ res = os.path.join(work, "out.json")
 if ck.thorough():
     n_in, n_par, n_var, extra = 20000, 1500, 160, ["-allruns"]
 else:
-    n_in, n_par, n_var, extra = 2400, 300, 24, []
+    n_in, n_par, n_var, extra = 2000, 200, 20, []
 env = dict(GOENV)
 env["VERIF_REPO"] = REPO
 rc, out = sh([exe, "-work", work, "-out", res, "-seed", str(ck.seed), "-inproc", str(n_in), "-parse", str(n_par), "-variants", str(n_var)] + extra,
@@ -87,7 +87,7 @@ Require Import Verif.Model.C10 Verif.Model.C10_Spec Verif.Model.C10_Check.
 Open Scope string_scope. Open Scope Z_scope.
 """
 files = {}
-SH = 600
+SH = 500
 ishards = [inproc[i:i + SH] for i in range(0, len(inproc), SH)]
 for k, sh_ in enumerate(ishards):
     files["inproc%d" % k] = HEAD + """Definition cases : list icase := %s.
